@@ -357,7 +357,7 @@ fn c14_libtest(h: &RHistory, out: &mut Vec<Violation>) {
     let mut want = Bag::new();
     let mut retried_failures = 0i64;
     for e in &h.input {
-        let sc = format!("{}|{}|{}|{}|{}", e.feature.clone().unwrap_or_default(), e.rule.clone().unwrap_or_default(), e.sc_line, e.scenario.clone().unwrap_or_default(), attempt_no(e));
+        let sc = format!("{}|{}|{}|{}|{}", e.feature.clone().unwrap_or_default(), e.rule.clone().unwrap_or_default(), e.sc_line, e.sc_name.clone().unwrap_or_default(), attempt_no(e));
         match &e.k {
             K::StepPassed { bg } | K::StepSkipped { bg } => {
                 let st = e.step.as_ref().unwrap();
@@ -517,7 +517,7 @@ fn c14_json(h: &RHistory, out: &mut Vec<Violation>) {
             e.fpath.as_deref().map(|p| p.trim_start_matches('/')).unwrap_or_default(),
             e.feature.clone().unwrap_or_default(),
             e.rule.as_ref().map(|r| format!("{r} ")).unwrap_or_default(),
-            e.scenario.clone().unwrap_or_default(),
+            e.sc_name.clone().unwrap_or_default(),
             e.sc_line
         );
         match &e.k {
@@ -548,7 +548,7 @@ fn c14_json(h: &RHistory, out: &mut Vec<Violation>) {
             e.fpath.as_deref().map(|p| p.trim_start_matches('/')).unwrap_or_default(),
             e.feature.clone().unwrap_or_default(),
             e.rule.as_ref().map(|r| format!("{r} ")).unwrap_or_default(),
-            e.scenario.clone().unwrap_or_default(),
+            e.sc_name.clone().unwrap_or_default(),
             e.sc_line
         );
         let key = e.attempt_key();
@@ -770,7 +770,7 @@ fn basic_expected(input: &[Ev], with_feature: bool) -> Bag {
             "{}|{}|{}|{}",
             if with_feature { e.feature.clone().unwrap_or_default() } else { String::new() },
             if with_feature { e.rule.clone().unwrap_or_default() } else { String::new() },
-            e.scenario.clone().unwrap_or_default(),
+            e.sc_name.clone().unwrap_or_default(),
             attempt_no(e)
         );
         match &e.k {
@@ -795,7 +795,7 @@ fn basic_expected(input: &[Ev], with_feature: bool) -> Bag {
             "{}|{}|{}|{}",
             if with_feature { e.feature.clone().unwrap_or_default() } else { String::new() },
             if with_feature { e.rule.clone().unwrap_or_default() } else { String::new() },
-            e.scenario.clone().unwrap_or_default(),
+            e.sc_name.clone().unwrap_or_default(),
             attempt_no(e)
         );
         let key = e.attempt_key();
@@ -1084,7 +1084,7 @@ fn c14_junit(h: &RHistory, out: &mut Vec<Violation>) {
         let cname = format!(
             "{}Scenario: {}: {}{}:",
             first.rule.as_ref().map(|r| format!("Rule: {r}: ")).unwrap_or_default(),
-            first.scenario.clone().unwrap_or_default(),
+            first.sc_name.clone().unwrap_or_default(),
             first.fpath.as_ref().map(|p| format!("{p}:")).unwrap_or_default(),
             first.sc_line
         );
